@@ -8,6 +8,8 @@ import (
 	"context"
 	"errors"
 	"fmt"
+	"sort"
+	"strings"
 	"sync"
 	"sync/atomic"
 	"time"
@@ -66,10 +68,29 @@ const (
 	// ENestedRun: the callback ran another flyt.Run itself, which failed, and returns its own error value wrapping both
 	// its sentinel and that inner run's error (the returned value is still the callback's own)
 	ENestedRun = NumErrKinds + 5
+	// ETypedNil: a non-nil error interface that holds a nil pointer (the classic typed-nil): still an error
+	ETypedNil = NumErrKinds + 6
+	// ENilSliceErr: a non-nil error interface holding a nil slice of a slice-based error type
+	ENilSliceErr = NumErrKinds + 7
 )
 
+// NilableErr is a pointer error type whose methods work on a nil receiver.
+type NilableErr struct{ msg string }
+
+func (e *NilableErr) Error() string {
+	if e == nil {
+		return "typed-nil error"
+	}
+	return e.msg
+}
+
+// MultiErr is a slice-based error type (a nil MultiErr inside an error interface is a non-nil error).
+type MultiErr []error
+
+func (m MultiErr) Error() string { return fmt.Sprintf("%d errors", len(m)) }
+
 // AllErrKinds lists every error kind a callback can be scripted to fail with (ECtxAware excluded: it depends on the context).
-var AllErrKinds = []int{ESentinel, EWrapped, ECustom, ECtxLike, EUncomparable, EJoined, ENestedRun, ETemporary}
+var AllErrKinds = []int{ESentinel, EWrapped, ECustom, ECtxLike, EUncomparable, EJoined, ENestedRun, ETemporary, ETypedNil, ENilSliceErr}
 
 // UncompErr is an error whose dynamic type is not comparable.
 type UncompErr struct {
@@ -206,6 +227,7 @@ type Outcome struct {
 	Discard   bool     `json:"discard,omitempty"`
 	Runaway   bool     `json:"runaway,omitempty"` // the run exceeded RunawayLimit callbacks and was cut off
 	CancelSeq int      `json:"cancel_seq"`        // seq of the callback that cancelled (-1 none)
+	ReturnedDuringCallback bool `json:"returned_during_callback,omitempty"` // Run returned while a user callback of this run was still executing
 	err       error
 }
 
@@ -238,6 +260,7 @@ type Exec struct {
 	seenCtx     []context.Context
 	ctxFlagged  bool
 	getterCalls atomic.Int64
+	dwelling    atomic.Int32 // 1 while the cancel-dwell callback is still inside its dwell
 }
 
 type core struct {
@@ -340,6 +363,14 @@ func (x *Exec) enter() (ordinal int) {
 		x.cancel()
 		x.cancelSeq = ordinal
 	}
+	if inj.Kind == "cancel-dwell" && inj.At == ordinal && x.cancel != nil {
+		// the cancellation arrives while this callback is busy and stays busy for a while (it does not watch the context)
+		x.cancel()
+		x.cancelSeq = ordinal
+		x.dwelling.Store(1)
+		time.Sleep(120 * time.Millisecond)
+		x.dwelling.Store(0)
+	}
 	if inj.Kind == "real-timeout" && inj.At == ordinal {
 		// wait for the real deadline to pass inside this callback
 		<-x.ctx.Done()
@@ -378,6 +409,12 @@ func (x *Exec) mkErr(kind int, id string) error {
 		ret = sentinel
 	case EUncomparable:
 		sentinel = UncompErr{ID: id, Tags: []string{"a"}}
+		ret = sentinel
+	case ETypedNil:
+		sentinel = (*NilableErr)(nil)
+		ret = sentinel
+	case ENilSliceErr:
+		sentinel = MultiErr(nil)
 		ret = sentinel
 	case EJoined:
 		sentinel = errors.New("sentinel " + id)
@@ -418,12 +455,18 @@ func (x *Exec) MatchErr(err error) string {
 	}
 	x.mu.Lock()
 	defer x.mu.Unlock()
-	found := ""
+	var all []string
 	for id, s := range x.errs {
 		ok := false
 		if ce, isC := s.(*CustomErr); isC {
 			var got *CustomErr
 			ok = errors.As(err, &got) && got == ce && errors.Is(err, s)
+		} else if _, isN := s.(*NilableErr); isN {
+			var got *NilableErr
+			ok = errors.As(err, &got) && got == nil
+		} else if _, isM := s.(MultiErr); isM {
+			var got MultiErr
+			ok = errors.As(err, &got) && got == nil
 		} else if ue, isU := s.(UncompErr); isU {
 			var got UncompErr
 			ok = errors.As(err, &got) && got.ID == ue.ID
@@ -431,13 +474,11 @@ func (x *Exec) MatchErr(err error) string {
 			ok = errors.Is(err, s)
 		}
 		if ok {
-			if found != "" {
-				return found + "+" + id
-			}
-			found = id
+			all = append(all, id)
 		}
 	}
-	return found
+	sort.Strings(all)
+	return strings.Join(all, "+")
 }
 
 func errID(node, visit int, phase string, attempt int) string {
@@ -543,7 +584,7 @@ func (c *core) fallback(prepRes any, err error) (any, error) {
 	v := c.visit - 1
 	e := Event{Node: c.id, Visit: v, Phase: "fallback", StoreOK: true, PrepOK: zoo.Same(prepRes, c.curPrep)}
 	if n := len(c.attErrs); n > 0 && err != nil {
-		e.ErrOK = c.x.MatchErr(err) == errID(c.id, v, "exec", n)
+		e.ErrOK = idHas(c.x.MatchErr(err), errID(c.id, v, "exec", n)) // (error kinds without identity, e.g. typed nils, match every attempt)
 		if !e.ErrOK {
 			e.ErrOld = c.x.MatchErr(err) != ""
 			e.Note = "fallback got error matching " + c.x.MatchErr(err)
@@ -553,7 +594,12 @@ func (c *core) fallback(prepRes any, err error) (any, error) {
 	s := c.script()
 	if s.FBErr {
 		c.x.setRet(seq, errID(c.id, v, "fallback", 0))
-		return &payload{Node: c.id, Visit: v, What: "garbage-of-failed-fallback"}, c.x.mkErr(c.spec.ErrKind, errID(c.id, v, "fallback", 0))
+		fe := c.x.mkErr(c.spec.ErrKind, errID(c.id, v, "fallback", 0))
+		if (v+c.id+len(c.attErrs))%2 == 1 && err != nil {
+			// a fallback that gives up usually reports what it was given as the cause: the returned value is still its own
+			fe = fmt.Errorf("%w (fallback gave up; cause: %w)", fe, err)
+		}
+		return &payload{Node: c.id, Visit: v, What: "garbage-of-failed-fallback"}, fe
 	}
 	if s.FBNil {
 		c.produced = nil
@@ -972,7 +1018,7 @@ func (x *Exec) RunOnce() (out Outcome) {
 	}
 	x.getterCalls.Store(0)
 	switch injKind {
-	case "cancel", "pre-cancel", "cancel-in-getter":
+	case "cancel", "pre-cancel", "cancel-in-getter", "cancel-dwell":
 		c, cf := context.WithCancel(context.Background())
 		ctx, x.cancel, stop = c, cf, cf
 		if x.Sc.Inject.Kind == "pre-cancel" {
@@ -987,6 +1033,9 @@ func (x *Exec) RunOnce() (out Outcome) {
 			x.mu.Unlock()
 		}
 		ctx = f
+	case "deadline-in-wait": // a real deadline At milliseconds away that expires while the node sits in its (much longer) retry wait
+		c, cf := context.WithTimeout(context.Background(), time.Duration(x.Sc.Inject.At)*time.Millisecond)
+		ctx, stop = c, cf
 	case "far-deadline": // a real deadline At milliseconds away that is NOT supposed to be reached; the run is discarded if it was
 		c, cf := context.WithTimeout(context.Background(), time.Duration(x.Sc.Inject.At)*time.Millisecond)
 		ctx, stop = c, cf
@@ -1030,6 +1079,7 @@ func (x *Exec) RunOnce() (out Outcome) {
 			action, err = flyt.Run(ctx, root, x.store)
 		}
 	}()
+	out.ReturnedDuringCallback = x.dwelling.Load() == 1
 	out.Action = string(action)
 	out.Runaway = x.runaway.Load()
 	x.runaway.Store(false)
